@@ -34,10 +34,26 @@ def kills():
         rows.append(f"| `{os.path.basename(d)}` | {m.get('property')} | {summ} — needs: {needs} | {det} | {c.get('first_violation','').strip()[:150].replace('|','/')} |")
     return "\n".join(rows)
 
+def status():
+    man = json.load(open(os.path.join(HERE, "MANIFEST.json")))
+    rows = ["| id | theorems (audited) | correspondence cases (quick) | non-trivial distinct | technique |", "|---|---|---|---|---|"]
+    for c in man["checks"]:
+        pid = c["property_id"]
+        try:
+            ev = json.load(open(os.path.join(HERE, c["evidence_file"])))
+            cov = ev["coverage"]
+            th = f"{cov.get('discharged')}/{cov.get('obligations')}"
+            n, d = cov.get("evaluations"), cov.get("distinct_nontrivial")
+        except Exception:
+            th, n, d = "?", "?", "?"
+        rows.append(f"| {pid} | {th} | {n} | {d} | {c.get('technique','')[:230]} |")
+    return "\n".join(rows)
+
+
 def main():
     p = os.path.join(HERE, "DESIGN.md")
     s = open(p).read()
-    for name, body in (("FINDINGS", findings()), ("KILLS", kills())):
+    for name, body in (("FINDINGS", findings()), ("KILLS", kills()), ("STATUS", status())):
         b, e = f"<!-- BEGIN {name} -->", f"<!-- END {name} -->"
         if b in s:
             s = s[: s.index(b) + len(b)] + "\n" + body + "\n" + s[s.index(e):]
